@@ -32,13 +32,21 @@ CHECKS = {
     'C03': dict(
         text='Coq proof, for EVERY text, that the leaves of parse() are the lexer tokens of the split statements (same values; '
              'types equal or re-typed to Operator), that every group caches its current text (C03_leaves_and_cached, '
-             'C03_every_pass after each pass prefix) and that every group of every parsed statement is non-empty (C03_nonempty, '
-             'from the totality development: no pass ever creates an empty group), plus the offset-lookup theorem C03_at_offset. '
-             'Parent pointers and the sibling/ancestry helpers are checked on every node of every generated tree by a direct '
-             'oracle on the implementation (partial: no theorem for those parts, the tree model has no object identity).',
-        note='Partial: parent references and navigation helpers are decided by exploration (oracle over all nodes), not by '
-             'theorem. Trusted base as C02.',
-        design='7/C03', technique='Coq proof (leaf/cached/non-empty invariants over all passes) + tree correspondence + per-node oracle'),
+             'C03_every_pass after each pass prefix) and that every group of every parsed statement is non-empty (C03_nonempty), plus '
+             'C03_at_offset. Parent references and object identity: an OBJECT-HEAP model (ids, parent fields, child-id lists) of '
+             'TokenList.__init__/group_tokens/insert_before/insert_after with, for ANY well-formed heap, group, class, indices and '
+             'both branches (new group / extend): C03_parent_group_tokens_wf (every child\'s parent field names the group that contains '
+             'it, every object occurs once, the tree is acyclic, cached values stay correct, leaf sequence unchanged), '
+             'C03_parent_group_tokens_refines (the heap operation commutes with the pure group_tokens of the tree model at any path), '
+             'C03_parent_wf_iff_tree, insert_*_wf, refutations for the variants without the re-parenting loop / without grp.parent = '
+             'self; navigation helpers specified and proved on well-formed heaps (token_index, token_next/prev with the literal '
+             '_token_matching index arithmetic, token_first, is_child_of, has_ancestor, within, get_token_at_offset). Tied to the code '
+             'by tree correspondence after every pass, by random operation sequences on real objects (dump of every object with the '
+             'path its parent field names) and by replaying every group_tokens call of the real pipeline in the heap model; per-node '
+             'oracle on the implementation.',
+        note='Trusted: hand-written heap model (tested against real TokenList objects, not translated); that the 25 passes mutate '
+             'the tree only through group_tokens (checked: no .tokens mutation / parent assignment in grouping.py; recorded calls replay).',
+        design='7/C03', technique='Coq proof (leaf/cached/non-empty invariants; heap invariant + refinement) + correspondence + per-node oracle'),
 }
 
 CHECKS.update({
